@@ -422,3 +422,16 @@ func sortedKeys(m map[string]bool) []string {
 	sort.Strings(ks)
 	return ks
 }
+
+// failOnce reports each oracle-failure signature once per run (lib.Stats keeps
+// at most 50 failures; repeated known findings must not crowd out a new one).
+var failedSigs = map[string]int{}
+
+func failOnce(st *lib.Stats, sig, what string, input interface{}) {
+	failedSigs[sig]++
+	if failedSigs[sig] == 1 {
+		st.Fail(sig, what, input)
+	} else {
+		st.Hist["oracle_fail:"+sig]++
+	}
+}
